@@ -249,6 +249,17 @@ def gen_hierarchy(rng, idx):
         for _ in range(rng.randint(0, 3)):
             c = mk((c,))
         return c
+    if shape < 0.75:
+        # two unrelated bases: the second one (a mix-in) may be the one that opts in
+        a = mk(())
+        b = mk(())
+        try:
+            d = mk((a, b))
+        except TypeError:
+            return a
+        if rng.random() < 0.5:
+            d = mk((d,))
+        return d
     a = mk((root,))
     b = mk((root,))
     try:
@@ -345,6 +356,10 @@ def main(ctx: Ctx):
     model = ctx.model(lines)
     for i, cls in enumerate(classes):
         toks = lines[i].split()[1:]
+        if i % 2 == 1:
+            # the verdict must not depend on which classes of the hierarchy were looked at before: ask for every base first
+            for base in reversed(cls.__mro__[1:-1]):
+                real_check(base)
         real = real_check(cls)
         ctx.case(tuple(toks), sum(1 for t in toks if t != '0n') >= 2, sample={'mro': toks, 'real': real} if i % 150 == 0 else None)
         ctx.count('mro:' + real)
